@@ -694,8 +694,8 @@ pub const TAILS: &[&str] = &[
             "static int step;\nstatic int uses_step = step;\n",
             "void fn_then_global() {}\nstatic int fn_then_global;\nstatic int uses_ftg = fn_then_global;\n",
             "[[rssl::bindless]] cbuffer BindlessCB { float bcb_a; }\n",
-            // a struct template with several instantiations (both exporters stop at the template
-            // today - a known finding - so this tail is valid input whose export is unfinished)
+            // a struct template with several instantiations (both exporters answer
+            // UnsupportedStructTemplate today: valid input whose export is unfinished)
             "template<typename T>\nstruct TplPair { T first; T second; T sum() { return first + second; } };\nvoid tpl_use() { TplPair<float> pf; TplPair<int> pi; TplPair<uint> pu; TplPair<float2> pf2; pf.first = 1; pi.first = 2; pu.first = 3; pf2.first = float2(4, 5); }\n",
             // stage linking (Metal links the stages of a graphics pipeline by user semantics)
             "void li_vs(uint vid : SV_VertexID, out float4 o_pos : SV_Position, out float2 o_uv : TEXCOORD, out float3 o_nrm : NORMAL, out float4 o_tan : TANGENT, out float o_wet : WETNESS) { o_pos = float4(0, 0, 0, 1); o_uv = float2(0, 0); o_nrm = float3(0, 0, 1); o_tan = float4(1, 0, 0, 1); o_wet = 0; }\nfloat4 li_ps(float4 i_col : COLOUR) : SV_Target0 { return i_col; }\nPipeline LinkMissing { VertexShader = li_vs; PixelShader = li_ps; }\n",
